@@ -39,14 +39,15 @@ Definition f_unbound (f : flotsam) : bool :=
 
 (* progress of update_inscription_location *)
 Lemma update_location_total : forall h rg f sp o b,
-  TI b -> b_next b < I32_LIMIT ->
+  TI b -> (is_new f = true -> b_next b < I32_LIMIT) ->
   (forall s, f_origin f = OOld s -> tgN s (s_entries (b_st b)) <> None) ->
   (forall rs, rg = Some rs -> is_new f = true -> f_unbound f = false -> f_offset f < ranges_size rs) ->
   exists b', update_location h rg f sp o b = Ok b'.
 Proof.
-  intros h rg f sp o b [TD TV TX TK [C1 C2]] HL HO HR. unfold update_location.
+  intros h rg f sp o b [TD TV TX TK [C1 C2]] HL0 HO HR. unfold update_location.
   destruct (f_origin f) as [c fee hid ps re ub vi|seq] eqn:Ho.
-  - assert (Hnum : exists r, (if c then if b_cursed b <? I32_LIMIT then Ok ((- Z.of_N (b_cursed b) - 1)%Z, b_blessed b, b_cursed b + 1) else Panic 6
+  - assert (HL : b_next b < I32_LIMIT) by (apply HL0; unfold is_new; rewrite Ho; reflexivity).
+    assert (Hnum : exists r, (if c then if b_cursed b <? I32_LIMIT then Ok ((- Z.of_N (b_cursed b) - 1)%Z, b_blessed b, b_cursed b + 1) else Panic 6
                              else if b_blessed b <? I32_LIMIT then Ok (Z.of_N (b_blessed b), b_blessed b + 1, b_cursed b) else Panic 6) = Ok r).
     { destruct c; [destruct (N.ltb_spec (b_cursed b) I32_LIMIT) | destruct (N.ltb_spec (b_blessed b) I32_LIMIT)]; eauto; lia. }
     destruct Hnum as ([[number bl] cu] & ->). cbn [bind].
@@ -110,4 +111,173 @@ Proof.
         -- inv Hq. apply Hkeep. apply HO. reflexivity.
         -- unfold entry_at in *. destruct (tgP op (s_utxo (b_st b))) as [e0|] eqn:T; [|congruence]. apply Hkeep. eapply TK; eauto.
     + rewrite O3, O4, O5. auto.
+Qed.
+
+Lemma step_keep : forall h rg f sp o b b' s,
+  TI b -> update_location h rg f sp o b = Ok b' ->
+  tgN s (s_entries (b_st b)) <> None -> tgN s (s_entries (b_st b')) <> None.
+Proof.
+  intros h rg f sp o b b' s [TD _ _ _ _] H Hs. destruct (f_origin f) as [c fee hid ps re ub vi|seq] eqn:Ho.
+  - destruct (update_new_shape _ _ _ _ _ _ _ _ _ _ _ _ _ _ Ho H) as (e & [_ _ _ _ S5 _ _ _ _ _ _ _]).
+    rewrite S5, tgN_set. destruct (N.eqb_spec s (b_next b)); [discriminate|exact Hs].
+  - destruct (update_old_shape _ _ _ _ _ _ _ _ Ho H) as (_ & _ & _ & _ & _ & _ & _ & [O8|(e0 & He0 & O8)]); rewrite O8; auto.
+    rewrite tgN_set. destruct (N.eqb_spec s seq); [discriminate|exact Hs].
+Qed.
+
+Definition calc_ok (rg : option (list (N * N))) (f : flotsam) : Prop :=
+  forall rs, rg = Some rs -> is_new f = true -> f_unbound f = false -> f_offset f < ranges_size rs.
+
+Lemma apply_locs_total : forall h rg locs b,
+  TI b -> b_next b + nnew (map loc_flot locs) <= I32_LIMIT ->
+  KeyF (s_entries (b_st b)) (map loc_flot locs) -> (forall f, In f (map loc_flot locs) -> calc_ok rg f) ->
+  exists b', apply_locs h rg locs b = Ok b' /\ TI b' /\
+    (forall s, tgN s (s_entries (b_st b)) <> None -> tgN s (s_entries (b_st b')) <> None).
+Proof.
+  intros h rg locs. induction locs as [|[[[op off] f] o] r IH]; intros b HT HB HK HC; cbn [apply_locs].
+  - eauto.
+  - cbn [map loc_flot fst snd] in *. change (f :: map loc_flot r) with ([f] ++ map loc_flot r) in HB. rewrite nnew_app in HB.
+    assert (HO : forall s, f_origin f = OOld s -> tgN s (s_entries (b_st b)) <> None) by (intros s Hs; eapply HK; [left; reflexivity|exact Hs]).
+    destruct (update_location_total h rg f (op, off) o b HT) as (b1 & E1); auto.
+    { intro Q. assert (nnew [f] = 1) by (unfold nnew, new_ids; cbn; rewrite Q; reflexivity). lia. }
+    { apply HC. left. reflexivity. }
+    rewrite E1. cbn [bind].
+    pose proof (step_ti _ _ _ _ _ _ _ HT HO E1) as T1.
+    pose proof (step_next _ _ _ _ _ _ _ E1) as N1.
+    destruct (IH b1 T1) as (b' & E' & T' & K'); [lia | | | ].
+    + intros g s Hg Hs. apply (step_keep _ _ _ _ _ _ _ s HT E1). eapply HK; [right; exact Hg|exact Hs].
+    + intros g Hg. apply HC. right. exact Hg.
+    + exists b'. split; auto. split; auto. intros s Hs. apply K'. apply (step_keep _ _ _ _ _ _ _ s HT E1). exact Hs.
+Qed.
+
+Lemma apply_lost_total : forall h rg ov l b,
+  TI b -> b_next b + nnew l <= I32_LIMIT -> Forall (fun f => ov <= f_offset f) l ->
+  KeyF (s_entries (b_st b)) l -> (forall f, In f l -> calc_ok rg f) ->
+  exists b', apply_lost h rg ov l b = Ok b' /\ TI b' /\
+    (forall s, tgN s (s_entries (b_st b)) <> None -> tgN s (s_entries (b_st b')) <> None).
+Proof.
+  intros h rg ov l. induction l as [|f r IH]; intros b HT HB HG HK HC; cbn [apply_lost].
+  - eauto.
+  - change (f :: r) with ([f] ++ r) in HB. rewrite nnew_app in HB. apply Forall_cons_iff in HG. destruct HG as [G1 G2].
+    unfold csub. destruct (N.leb_spec ov (b_lost b + f_offset f)); [|lia]. cbn [bind].
+    assert (HO : forall s, f_origin f = OOld s -> tgN s (s_entries (b_st b)) <> None) by (intros s Hs; eapply HK; [left; reflexivity|exact Hs]).
+    destruct (update_location_total h rg f (null_op, b_lost b + f_offset f - ov) false b HT) as (b1 & E1); auto.
+    { intro Q. assert (nnew [f] = 1) by (unfold nnew, new_ids; cbn; rewrite Q; reflexivity). lia. }
+    { apply HC. left. reflexivity. }
+    rewrite E1. cbn [bind].
+    pose proof (step_ti _ _ _ _ _ _ _ HT HO E1) as T1.
+    pose proof (step_next _ _ _ _ _ _ _ E1) as N1.
+    destruct (IH b1 T1) as (b' & E' & T' & K'); [lia | exact G2 | | | ].
+    + intros g s Hg Hs. apply (step_keep _ _ _ _ _ _ _ s HT E1). eapply HK; [right; exact Hg|exact Hs].
+    + intros g Hg. apply HC. right. exact Hg.
+    + exists b'. split; auto. split; auto. intros s Hs. apply K'. apply (step_keep _ _ _ _ _ _ _ s HT E1). exact Hs.
+Qed.
+
+(* ---- floating_of never fails *)
+
+Definition reach (v : envelope) : bool := (v_input v =? 0) && (v_offset v =? 0).
+
+Definition IOok (st : state) (io : list (N * (iid * N))) : Prop :=
+  forall o id c, tgN o io = Some (id, c) ->
+    exists s, tgP id (s_id2seq st) = Some s /\ tgN s (s_entries st) <> None.
+
+Lemma curse_of_total : forall st v offset io,
+  reach v = false \/ IOok st io -> exists c, curse_of st v offset io = Ok c.
+Proof.
+  intros st v offset io H. unfold curse_of.
+  destruct (v_uneven v); [eauto|]. destruct (v_dup v); [eauto|]. destruct (v_incomplete v); [eauto|].
+  destruct (N.eqb_spec (v_input v) 0) as [I0|I0]; cbn [negb]; [|eauto].
+  destruct (N.eqb_spec (v_offset v) 0) as [O0|O0]; cbn [negb]; [|eauto].
+  destruct (v_ptr_field v); [eauto|]. destruct (v_pushnum v); [eauto|]. destruct (v_stutter v); [eauto|].
+  destruct (tgN offset io) as [[id count]|] eqn:Q; [|eauto].
+  destruct (1 <? count); [eauto|].
+  destruct H as [H|H].
+  - unfold reach in H. rewrite I0, O0 in H. discriminate.
+  - destruct (H _ _ _ Q) as (s & S1 & S2). rewrite S1. destruct (tgN s (s_entries st)) as [e|]; [|congruence].
+    destruct ((i_number e <? 0)%Z || has CHARM_VINDICATED (i_charms e)); eauto.
+Qed.
+
+Lemma news_total : forall st txid jubilant tov offset iv l a,
+  Forall (fun v => reach v = false) (tl l) ->
+  (match l with v :: _ => reach v = false \/ IOok st (a_io a) | [] => True end) ->
+  exists a', news st txid jubilant tov offset iv l a = Ok a'.
+Proof.
+  intros st txid jubilant tov offset iv l. induction l as [|v r IH]; intros a HT HH; cbn [news]; [eauto|].
+  destruct (curse_of_total st v offset (a_io a) HH) as (c & ->). cbn [bind]. cbn [tl] in HT.
+  apply IH.
+  - destruct r; [constructor|]. apply Forall_cons_iff in HT. tauto.
+  - destruct r; auto. left. apply Forall_cons_iff in HT. tauto.
+Qed.
+
+Lemma io_bump_ok : forall st o id io,
+  IOok st io -> (exists s, tgP id (s_id2seq st) = Some s /\ tgN s (s_entries st) <> None) -> IOok st (io_bump o id io).
+Proof.
+  intros st o id io H Hid o' id' c' Hq. unfold io_bump in Hq. destruct (tgN o io) as [[id0 c0]|] eqn:Q; rewrite tgN_set in Hq;
+    destruct (N.eqb_spec o' o); try (eapply H; eauto; fail).
+  - inv Hq. eapply H; eauto.
+  - inv Hq. exact Hid.
+Qed.
+
+Lemma olds_total : forall st base l acc io,
+  (forall s off, In (s, off) l -> tgN s (s_entries st) <> None) ->
+  exists fl io', olds (s_entries st) base l acc io = Ok (fl, io') /\
+    (IOok st io ->
+     (forall s e, tgN s (s_entries st) = Some e -> tgP (i_id e) (s_id2seq st) <> None) ->
+     (forall i s, tgP i (s_id2seq st) = Some s -> tgN s (s_entries st) <> None) -> IOok st io').
+Proof.
+  intros st base l. induction l as [|[seq off] r IH]; intros acc io HK; cbn [olds]; [eauto|].
+  destruct (tgN seq (s_entries st)) as [e|] eqn:Q; [|exfalso; eapply (HK seq off); [left; reflexivity|exact Q]].
+  destruct (IH (acc ++ [mkF (i_id e) (base + off) (OOld seq)]) (io_bump (base + off) (i_id e) io)) as (fl & io' & A & B).
+  { intros s o Hin. eapply HK. right. exact Hin. }
+  exists fl, io'. split; auto. intros HI TX TV. apply B; auto.
+  apply io_bump_ok; auto. destruct (tgP (i_id e) (s_id2seq st)) as [s'|] eqn:P; [|exfalso; eapply TX; eauto].
+  exists s'. split; auto. eapply TV; eauto.
+Qed.
+
+Lemma span_input_app : forall idx l mine rest, span_input idx l = (mine, rest) ->
+  l = mine ++ rest /\ Forall (fun v => v_input v = idx) mine.
+Proof.
+  intros idx l. induction l as [|v r IH]; intros mine rest H; cbn [span_input] in H.
+  - inv H. split; [reflexivity|constructor].
+  - destruct (N.eqb_spec (v_input v) idx).
+    + destruct (span_input idx r) as [a b] eqn:E. inv H. destruct (IH _ _ eq_refl) as [A B]. split; [cbn; f_equal; exact A|constructor; auto].
+    + inv H. split; [reflexivity|constructor].
+Qed.
+
+Definition first_only (envs : list envelope) : Prop :=
+  forall i v, nth_error envs i = Some v -> reach v = true -> i = 0%nat.
+
+Lemma inputs_loop_total : forall cfg st txid height jubilant tov ins idx pre cur envs a,
+  length pre = N.to_nat idx -> length cur = length ins ->
+  forallb (fun p => negb (is_null p)) ins = true ->
+  (forall s e, tgN s (s_entries st) = Some e -> tgP (i_id e) (s_id2seq st) <> None) ->
+  (forall i s, tgP i (s_id2seq st) = Some s -> tgN s (s_entries st) <> None) ->
+  (forall u s off, In u cur -> In (s, off) (u_insc u) -> tgN s (s_entries st) <> None) ->
+  (idx = 0 -> IOok st (a_io a) /\ first_only envs) ->
+  exists a', inputs_loop cfg st txid height jubilant tov ins idx (pre ++ cur) envs a = Ok a'.
+Proof.
+  intros cfg st txid height jubilant tov ins. induction ins as [|prev r IH]; intros idx pre cur envs a L1 L2 NN TX TV HK H0; cbn [inputs_loop]; [eauto|].
+  cbn [forallb] in NN. apply andb_true_iff in NN. destruct NN as [N1 N2].
+  destruct (is_null prev); [discriminate|]. destruct cur as [|u cur']; [discriminate|].
+  assert (Hn : nth_error (pre ++ u :: cur') (N.to_nat idx) = Some u).
+  { rewrite nth_error_app2 by lia. rewrite <- L1, Nat.sub_diag. reflexivity. }
+  rewrite Hn.
+  assert (HKs : forall s off, In (s, off) (sort_by fst (u_insc u)) -> tgN s (s_entries st) <> None).
+  { intros s off Hin. eapply Permutation_in in Hin; [|apply sort_by_perm]. eapply HK; [left; reflexivity|exact Hin]. }
+  destruct (olds_total st (a_tiv a) (sort_by fst (u_insc u)) (a_float a) (a_io a) HKs) as (fl & io' & -> & HIO'). cbn [bind].
+  destruct (span_input idx envs) as [mine rest] eqn:ES. destruct (span_input_app _ _ _ _ ES) as [EA EF].
+  match goal with |- context [news ?s ?t ?j ?tv ?o ?iv mine ?acc] => destruct (news_total s t j tv o iv mine acc) as (a1 & ->) end.
+  - destruct mine as [|v m]; [constructor|]. cbn [tl]. destruct (N.eq_dec idx 0) as [Z|NZ].
+    + destruct (H0 Z) as [_ HFo]. apply Forall_forall. intros x Hx.
+      destruct (reach x) eqn:Rx; auto. exfalso. apply In_nth_error in Hx. destruct Hx as (k & Hk).
+      assert (Hpos : nth_error envs (S k) = Some x).
+      { rewrite EA. cbn [app nth_error]. rewrite nth_error_app1; [exact Hk|]. apply nth_error_Some. congruence. }
+      specialize (HFo _ _ Hpos Rx). discriminate.
+    + apply Forall_cons_iff in EF. destruct EF as [_ EF].
+      eapply Forall_impl; [|exact EF]. intros x Hx. unfold reach. destruct (N.eqb_spec (v_input x) 0); [congruence|reflexivity].
+  - destruct mine as [|v m]; auto. cbn [a_io]. destruct (N.eq_dec idx 0) as [Z|NZ].
+    + right. destruct (H0 Z) as [HI _]. apply HIO'; auto.
+    + left. apply Forall_cons_iff in EF. destruct EF as [EF _]. unfold reach. destruct (N.eqb_spec (v_input v) 0); [congruence|reflexivity].
+  - cbn [bind]. replace (pre ++ u :: cur') with ((pre ++ [u]) ++ cur') by (rewrite <- app_assoc; reflexivity).
+    apply IH; auto; try (rewrite app_length; cbn [length]; lia); try (cbn [length] in L2; lia); try (intro Hc; lia).
+    intros u0 s off Hu Hp. eapply HK; [right; exact Hu|exact Hp].
 Qed.
